@@ -152,10 +152,11 @@ def _normalise_locals(rel: str, tree: ast.Module) -> None:
                 if ref is not None:
                     try:
                         ren, inl = canon.normalise_locals(ch, ref)
+                        ext = canon.reextract_locals(ch, ref)
                     except Exception:  # noqa: BLE001 -- a normalisation problem must never break the analysis
-                        ren, inl = {}, []
-                    if ren or inl:
-                        NORMALISED.append(f"{rel}::{prefix}{ch.name}: renamed {ren}, inlined {inl}")
+                        ren, inl, ext = {}, [], []
+                    if ren or inl or ext:
+                        NORMALISED.append(f"{rel}::{prefix}{ch.name}: renamed {ren}, inlined {inl}, re-extracted {ext}")
                 visit(ch, f"{prefix}{ch.name}.")
             elif isinstance(ch, (ast.If, ast.Try, ast.With)):
                 visit(ch, prefix)
